@@ -221,17 +221,24 @@ def NodeDef.toks (d : NodeDef) : Toks :=
       | some p => tq cs "Some ( &" ++ nodeIdent p ++ tq cs ")") ++
     tq cs s!", line_start : {d.loc.ls}u32 , col_start : {d.loc.cs}u32 , line_end : {d.loc.le}u32 , col_end : {d.loc.ce}u32 , }"
 
-/-- `expand(assert)`: the whole output block. -/
-def Expansion.toks (value : Toks) (x : Expansion) : Toks :=
+/-- Everything `expand` emits before the binding of the asserted expression. -/
+def Expansion.head (x : Expansion) : Toks :=
   tq cs "{ # [ allow ( unused_assignments , clippy : : neg_cmp_op_on_partial_ord , clippy : : op_ref , clippy : : zero_prefixed_literal , clippy : : bool_comparison , clippy : : redundant_pattern_matching , clippy : : useless_asref ) ] let __assert_struct_result = { use std : : convert : : AsRef ;" ++
     (x.nodes.flatMap fun (id, d) =>
       tq cs "static" ++ nodeIdent id ++ tq cs ":" ++ supportPath cs ++ tq cs "PatternNode =" ++ d.toks ++ tq cs ";") ++
     tq cs "const __PATTERN_TREE : &" ++ supportPath cs ++ tq cs "PatternNode = &" ++ nodeIdent x.root ++ tq cs ";" ++
     tq cs "let mut __report =" ++ supportPath cs ++ tq cs "ErrorReport : : new ( : : std : : env ! (" ++
-    tstr cs "CARGO_MANIFEST_DIR" ++ tq cs ") , : : std : : file ! ( ) , ) ;" ++
+    tstr cs "CARGO_MANIFEST_DIR" ++ tq cs ") , : : std : : file ! ( ) , ) ;"
+
+/-- Everything `expand` emits after the assertion code. -/
+def Expansion.tail : Toks :=
+  tq cs "if ! __report . is_empty ( ) { panic ! (" ++ tstr cs "{}" ++ tq cs ", __report ) ; } } ; __assert_struct_result }"
+
+/-- `expand(assert)`: the whole output block. -/
+def Expansion.toks (value : Toks) (x : Expansion) : Toks :=
+  x.head ++
     (if (x.body.toks value).isEmpty then []
      else tq cs "let __assert_struct_value = & (" ++ value ++ tq cs ") ;") ++
-    x.body.toks value ++
-    tq cs "if ! __report . is_empty ( ) { panic ! (" ++ tstr cs "{}" ++ tq cs ", __report ) ; } } ; __assert_struct_result }"
+    x.body.toks value ++ Expansion.tail
 
 end AsModel
